@@ -143,6 +143,13 @@ def make_scenario(rng, d):
             good = []
     models = good + bad
     rng.shuffle(models)
+    if target == "casadi" and rng.random() < 0.35:
+        # a class that exists, but only inside a file of another name, cannot be located by the casadi
+        # branch: it must be counted as a failed model wherever it stands in the list
+        write("Extra.mo", "model Hidden\n  Real h;\nequation\n  h = 2;\nend Hidden;\n")
+        models.insert(rng.randint(0, len(models)), "Hidden")
+        bad.append("Hidden")
+        tags.add("failing-model:Hidden-in-other-file")
     if target == "casadi":
         # one file per model, named after it; a model naming no file must be counted as well
         for m in models:
@@ -224,7 +231,7 @@ def one(ctx, rng, k):
 
 
 def run_shard(ctx):
-    for k in range(ctx.n(300, 10000)):
+    for k in range(ctx.n(160, 10000)):
         if ctx.out_of_time():
             break
         ctx.guarded(one, ctx, ctx.rng, k, timeout=600)
